@@ -14,6 +14,7 @@ import Gedcom.Lemmas.MultiLineLegal
 import Gedcom.Lemmas.RegexSound
 import Gedcom.Generated.DecodeLogic
 import Gedcom.Generated.DecodeCont
+import Gedcom.Generated.Tags
 namespace Gedcom.C02
 open Gedcom Gedcom.Dec
 
@@ -510,5 +511,15 @@ theorem step_role_without_family_is_source (o : Opts) (s : St) (line : Str) (l :
   have hr' : isRoleTag l.tag = true := by rw [role_tags_are_source]; exact hr
   simp [step, hne, hp, hr', hf, unparsable, Generated.contCond, Generated.contAppend,
     DecodeLogic.CExp.eval, DecodeLogic.evalAppend, DecodeLogic.SPiece.eval, LF]
+
+/-- **Record lines carry no value — and only they.** A decode probe of every registered tag and
+    an unregistered one (as a root line with and without pointer, and as a child line) finds that
+    exactly the INDI and FAM nodes come back without the value written on their line; these are
+    the model's record tags (`hdrOf`). -/
+theorem record_tags_are_source :
+    Generated.valueDroppedTags = ["FAM", "INDI"] ∧
+    tFAM = [70, 65, 77] ∧ tINDI = [73, 78, 68, 73] ∧
+    ∀ t : Str, isRecordTag t = (t == tINDI || t == tFAM) := by
+  refine ⟨by decide, rfl, rfl, fun t => rfl⟩
 
 end Gedcom.C02
